@@ -58,7 +58,7 @@ def run(ctx: Ctx) -> None:
     sr = tree.func(COM, "save_results")
     lp, rp, op = [a.arg for a in sr.args.args][:3]
     calls = [c for c in calls_in(sr) if (dotted(c.func) or "") == "write_data_array"]
-    ctx.floor("C19.WRITER-TABLE(calls)", len(calls), 6)
+    ctx.floor("C19.WRITER-TABLE(calls)", len(calls), 4)
     seen = set()
     for c in calls:
         arr = c.args[0] if c.args else kwarg(c, "data_array")
